@@ -69,6 +69,7 @@ func genNav(r *RNG) *nCase {
 	site := func(mi int, encMethod, encClass, form string) {
 		nc.Methods[mi].Sites = append(nc.Methods[mi].Sites, nSite{Row: row(), Method: encMethod, Class: encClass, Form: form})
 	}
+	hasJob, jobLeaf := false, -1
 	emit("flag = true")
 	// top-level leaf
 	nTop := r.Intn(2)
@@ -189,7 +190,32 @@ func genNav(r *RNG) *nCase {
 		emit("  end")
 		leaves = append(leaves, leaf{"Calc", cname, ci})
 	}
+	if r.Bool() {
+		// an endless method without parentheses whose body is a call
+		l := Pick(r, calcLeaves)
+		ei := addMethod("Calc", "ten")
+		site(l.idx, "ten", "Calc", "endless-method-body")
+		nc.Methods[ei].Callees = append(nc.Methods[ei].Callees, l.name)
+		emit("  def ten = " + l.name + "(10)")
+		leaves = append(leaves, leaf{"Calc", "ten", ei})
+	}
 	emit("end")
+	if r.Bool() {
+		// a subclass in another namespace: the inherited method is Calc's
+		emit("module App")
+		emit("  class Job < Calc")
+		ji := addMethod("Job", "work")
+		emit("    def work(a = 1)")
+		l := Pick(r, calcLeaves)
+		site(l.idx, "work", "Job", "inherited-implicit-cross-namespace")
+		nc.Methods[ji].Callees = append(nc.Methods[ji].Callees, l.name)
+		emit("      " + l.name + "(a)")
+		emit("    end")
+		emit("  end")
+		emit("end")
+		hasJob = true
+		jobLeaf = l.idx
+	}
 	// a subclass: inherited methods called on its instances are calls of Calc's methods
 	hasSub := r.Bool()
 	if hasSub {
@@ -250,6 +276,11 @@ func genNav(r *RNG) *nCase {
 	emit("calc = Calc.new")
 	if hasSub {
 		emit("sub = SubCalc.new")
+	}
+	if hasJob {
+		emit("job = App::Job.new")
+		site(jobLeaf, "", "", "top-level-inherited-cross-namespace")
+		emit("job." + nc.Methods[jobLeaf].Name + "(3)")
 	}
 	emit("tool = Tool.new")
 	site(ti, "", "", "top-level")
